@@ -15,7 +15,7 @@ import struct
 
 import numpy as np
 
-from .. import tlc, gen
+from .. import tlc, gen, realdata
 from ..common import Evidence, Reporter, import_mir_eval, Machinery
 
 PROP = "C03"
@@ -149,11 +149,17 @@ def run(tier, seed):
                                                              np.array([[0.0, 1.375], [2.0, 3.125], [4.0, 4.5]]), np.array([440.0, 220.0, 330.0]))))
     inputs["transcription_velocity"].append(("between-offset-ratios", (np.array([[0.0, 1.0], [2.0, 3.0], [4.0, 4.5]]), np.array([440.0, 220.0, 330.0]), np.array([60.0, 80.0, 100.0]),
                                                                       np.array([[0.0, 1.375], [2.0, 3.125], [4.0, 4.5]]), np.array([440.0, 220.0, 330.0]), np.array([62.0, 79.0, 98.0]))))
+    # the repository's own annotation fixtures: scored through evaluate() and directly, for a sample of the keyword subsets
+    for name in T:
+        for nm, ra in realdata.pairs(me, name, limit=None if thorough else 2):
+            inputs[name].append(("real:" + nm, ra))
     n_calls = 0
-    for row in rows:
+    for ridx, row in enumerate(rows):
         task = row["task"]
         kw = {("offset_ratio" if n == "offset_ratio_none" else n): value(task, n) for n in row["kw"]}
         for sh, args in inputs[task]:
+            if sh.startswith("real:") and row["kw"] and ((ridx + seed) % 9 or task in ("transcription_velocity", "hierarchy")):
+                continue
             n_calls += 1
             detail = {"task": task, "kwargs": {k: (v if not isinstance(v, float) else v) for k, v in kw.items()}, "shape": sh}
             try:
